@@ -480,6 +480,8 @@ func c12Setup(kind string) (*c12Endpoint, error) {
 		"q":      map[string]any{"type": "integer", "x-mcp-header": "Q"},
 		"r":      map[string]any{"type": "boolean", "x-mcp-header": "R"},
 		"absent": map[string]any{"type": "string", "x-mcp-header": "Absent"},
+		// an ordinary, unannotated sibling whose type is a list (what schema inference emits for a pointer field)
+		"note": map[string]any{"type": []any{"string", "null"}},
 	}}
 	s.AddTool(&Tool{Name: "t", InputSchema: schema}, func(context.Context, *CallToolRequest) (*CallToolResult, error) {
 		return &CallToolResult{}, nil
